@@ -190,6 +190,35 @@ func genArith(rng *rand.Rand) *arithEval {
 		lo = lo >> uint(128-p) << uint(128-p)
 		return &arithEval{P: p, Base: hex128(new(big.Int).Add(mapped, new(big.Int).SetUint64(lo))), X: hex128(new(big.Int).Add(mapped, new(big.Int).SetUint64(hi))), N: uint64(rng.Intn(1 << 16))}
 	}
+	if rng.Intn(10) == 0 && p > 0 {
+		// the n-th block lands at, just before or just behind the end of the address space: base is chosen so
+		// that base + n*2^(128-p) = 2^128 + d blocks, d in -3..3 or anything less than 2^64 addresses away
+		// (for every prefix length, so also with carries out of the low half into a high half of all ones)
+		blk := new(big.Int).Lsh(big.NewInt(1), uint(128-p))
+		n := patternU64(rng)
+		if n == 0 {
+			n = 1 + uint64(rng.Intn(9))
+		}
+		d := big.NewInt(int64(rng.Intn(7) - 3))
+		if rng.Intn(3) == 0 && p > 64 {
+			d.SetUint64(rng.Uint64() >> uint(128-p))
+			if rng.Intn(2) == 0 {
+				d.Neg(d)
+			}
+		}
+		sum := new(big.Int).Add(Two128, new(big.Int).Mul(d, blk))
+		b := new(big.Int).Sub(sum, new(big.Int).Mul(new(big.Int).SetUint64(n), blk))
+		if b.Sign() >= 0 && b.Cmp(Two128) < 0 {
+			x := new(big.Int).Set(b)
+			if rng.Intn(2) == 0 {
+				x.Sub(Two128, big.NewInt(1+int64(rng.Intn(3))))
+				if x.Cmp(b) < 0 {
+					x.Set(b)
+				}
+			}
+			return &arithEval{P: p, Base: hex128(b), X: hex128(x), N: n}
+		}
+	}
 	base := Pattern128(rng)
 	// align base to /p
 	shift := uint(128 - p)
